@@ -8,6 +8,7 @@ parameters and Gauss weights are atoms.  The same function denotes trees before 
 (after finalize, derivative arrays f_grad_a / f_hess_a / geo_grad_a ... are read back as the jets they store)."""
 import itertools
 
+import os
 import sympy as sp
 
 
@@ -234,6 +235,10 @@ class Sem:
         raise SemError('variable %s without source' % var.name)
 
 
+# per-step budget of the symbolic normal form (the thorough tier raises it: PYVC_SYMPY_LIMIT_S)
+SYMPY_LIMIT_S = int(os.environ.get('PYVC_SYMPY_LIMIT_S', '60'))
+
+
 def is_zero(expr, seed=0):
     """('proved'|'refuted'|'unknown', detail).  Symbolic normal form first; a numeric refutation replaces the undefined
     functions by random polynomials and evaluates exactly."""
@@ -247,7 +252,7 @@ def is_zero(expr, seed=0):
         return 'unknown', 'matrix entry undecided'
     d = expr
     try:
-        with _time_limit(60):
+        with _time_limit(SYMPY_LIMIT_S):
             d = sp.cancel(sp.together(sp.expand_func(expr.doit())))
         if d == 0:
             return 'proved', ''
@@ -259,7 +264,7 @@ def is_zero(expr, seed=0):
     if val is not None and abs(val) > 1e-9:
         return 'refuted', 'numeric witness (random polynomial jets, seed %d): difference = %s' % (seed, val)
     try:
-        with _time_limit(60):
+        with _time_limit(SYMPY_LIMIT_S):
             if sp.simplify(d) == 0:
                 return 'proved', ''
     except Exception:
